@@ -176,13 +176,13 @@ func refFromValue(v interface{}, lits *[]bool) *Ref {
 // ---------------------------------------------------------------------------------------------
 
 type probeRun struct {
-	o       *Out
-	s       *Session
-	ref     map[*ajson.Node]*Ref
-	buffers []guarded
-	hist    []string
-	failed  bool            // a panic: stop the history
-	failedP map[string]bool // properties that already reported a failure in this history (first one only)
+	o        *Out
+	s        *Session
+	ref      map[*ajson.Node]*Ref
+	buffers  []guarded
+	hist     []string
+	failed   bool                 // a panic: stop the history
+	failedP  map[string]bool      // properties that already reported a failure in this history (first one only)
 	cloneRel map[*ajson.Node]bool // nodes that were the source or the result of a Clone (C14: edits on one side never show on the other)
 }
 
@@ -615,8 +615,14 @@ func (p *probeRun) checkAll(step string) {
 					p.fail("C04", "marshal-roundtrip", "Marshal succeeded on a tree holding NaN or ±Inf", "error", hexOrDash(out))
 				case r.hasRange() || rangeErr:
 					// clean subtree with an out-of-range literal is copied verbatim; nothing to compare numerically
-				case canonValue(back) != canonValue(coerceValue(want)):
-					p.fail("C05", "value-vs-plain-data", "re-parsed Marshal output differs from the plain-data reference at "+n.Path()+" after "+step, canonValue(coerceValue(want)), canonValue(back))
+				default:
+					// C04: the text reads back to the value of the tree itself (what Unpack says), numbers bit for bit
+					if err == nil && canonValue(back) != canonValue(coerceValue(got)) {
+						p.fail("C04", "marshal-roundtrip", "Marshal output does not read back to the tree's own value (Unpack) at "+n.Path()+" after "+step+": "+string(out), canonValue(coerceValue(got)), canonValue(back))
+					}
+					if canonValue(back) != canonValue(coerceValue(want)) {
+						p.fail("C05", "value-vs-plain-data", "re-parsed Marshal output differs from the plain-data reference at "+n.Path()+" after "+step, canonValue(coerceValue(want)), canonValue(back))
+					}
 				}
 			}
 		}
@@ -1034,6 +1040,15 @@ func firstDiff(a, b string) string {
 	return fmt.Sprintf("before …%s | after …%s", truncate(a[lo:], 300), truncate(b[lo:], 300))
 }
 
+// marshalValueObs: what the Marshal output denotes (never the raw bytes: the clone may be printed in another spelling)
+func marshalValueObs(n *ajson.Node) string {
+	out, err := ajson.Marshal(n)
+	if err != nil {
+		return "err"
+	}
+	return canonOfJSON(out)
+}
+
 // checkClone: C14 at the moment of cloning.
 func (p *probeRun) checkClone(src, clone *ajson.Node) {
 	p.o.Check("C14", "clone-fresh")
@@ -1102,6 +1117,14 @@ func (p *probeRun) checkClone(src, clone *ajson.Node) {
 	b, e2 := clone.Unpack()
 	if (e1 == nil) != (e2 == nil) || (e1 == nil && canonValue(a) != canonValue(b)) {
 		p.fail("C14", "clone-fresh", "clone is not value-equal to the original", canonValueOrErr(a, e1), canonValueOrErr(b, e2))
+	}
+	// … through every view: what Marshal prints for the clone denotes what it prints for the original (and both the value)
+	ma, mb := marshalValueObs(src), marshalValueObs(clone)
+	if ma != mb {
+		p.fail("C14", "clone-fresh", "Marshal of the clone does not denote what Marshal of the original denotes", ma, mb)
+	}
+	if ok, err := src.Eq(clone); err == nil && !ok && e1 == nil && ma != "err" { // (a tree holding NaN is not equal to itself)
+		p.fail("C14", "clone-fresh", "Eq(original, clone) is false", "true", "false")
 	}
 }
 
